@@ -3,9 +3,11 @@
 use crate::client::{SessionPool, SessionPoolConfig};
 use crate::padding::PaddingFactory;
 use crate::session::{Session, SessionHeartbeatConfig};
+#[cfg_attr(feature = "verif", allow(unused_imports))]
 use crate::util::{AnyTlsError, Result, configure_tcp_stream, hash_password, send_authentication};
 use std::net::{Ipv4Addr, Ipv6Addr};
 use std::sync::Arc;
+#[cfg_attr(feature = "verif", allow(unused_imports))]
 use tokio::net::TcpStream;
 use tokio::time::Duration;
 use tokio_rustls::rustls::pki_types::ServerName;
@@ -210,6 +212,12 @@ impl Client {
 
     /// Create a new session with the server
     async fn create_new_session(&self) -> Result<Arc<Session>> {
+        // Verification seam: inside this function the dialer's transport type is the
+        // one from verif.rs (a thin wrapper around tokio's TcpStream unless a checker
+        // installs an in-memory dialer); shadows the module-level imports.
+        #[cfg(feature = "verif")]
+        use crate::verif::{TcpStream, configure_tcp_stream};
+
         tracing::debug!("[Client] Creating new session to {}", self.server_addr);
 
         // Establish TCP connection
